@@ -260,7 +260,7 @@ def cgroup_quota():
         return None
 
 
-OPTION_TEXTS_N = ["0", "1", "2", "3", "9", "64", "1000", "+4", "007"]
+OPTION_TEXTS_N = ["0", "1", "2", "3", "9", "64", "300", "+4", "007"]
 OPTION_TEXTS_T = ["0", "1", "60", "4294967296", "9223372036854775808", "18446744073709551615", "+5", "000"]
 OPTION_TEXTS_M = ["0", "1", "3", "16", "17", "1000", "18446744073709551615", "+2"]
 OPTION_TEXTS_BAD = ["18446744073709551616", "99999999999999999999999", "-1", "-0", "abc", "", "1.5", "1e3", " 1", "0x10", "١"]
@@ -793,17 +793,24 @@ def run_job(ctx, exe, fake, nopath, scratch, job):
 
 
 def replay_known(ctx, e):
-    """known_findings.jsonl entries of C10 with a `cmd`: run it with the stand-in prover answering Theorem for every
-    problem; the finding is still there while no verdict line is printed / the process crashes."""
+    """known_findings.jsonl entries of C10 with a `cmd`: run it (behind the entry's `prefix`, e.g. prlimit) with the
+    stand-in prover answering Theorem for every problem; the finding is still there while the process crashes
+    without a verdict line, with the recorded message on stderr."""
+    import shutil
     exe = clilib.anthem_exe()
     fake = clilib.fake_vampire_dir()
+    prefix = list(e.get("prefix", []))
+    if prefix:
+        prefix[0] = shutil.which(prefix[0]) or prefix[0]
+        if not os.path.isfile(prefix[0]):
+            return False, f"cannot replay: `{e['prefix'][0]}` is not installed"
     with clilib.Scratch("C10-known-" + e["id"]) as scratch:
         f = clilib.write(os.path.join(scratch, e.get("input_name", "input.lp")), e["input_text"])
         argv = [a.replace("{input}", f) for a in e["cmd"]]
-        rr = clilib.run([exe] + argv, env={"FAKE_VAMPIRE_DIR": scratch, "PATH": fake, "FAKE_VAMPIRE_DEFAULT": "theorem"},
+        rr = clilib.run(prefix + [exe] + argv, env={"FAKE_VAMPIRE_DIR": scratch, "PATH": fake, "FAKE_VAMPIRE_DEFAULT": "theorem"},
                         timeout=e.get("timeout_s", 60))
     verdict = parse_stdout(rr.out.decode("utf8", "replace"))[2]
-    still = verdict is None and (rr.crashed or rr.rc != 0)
+    still = verdict is None and (rr.crashed or rr.rc != 0) and e.get("stderr_contains", "").encode() in rr.err
     return still, f"exit {rr.rc}, verdict {verdict}, stderr {rr.err[-200:].decode('latin1')!r}"
 
 
